@@ -877,7 +877,7 @@ Proof.
 Qed.
 
 (* majority judgment, default rule, repaired (fixes/C12-mj-default-exhausted): the evaluator has no crash outcome at any
-   scale - on every profile with positive ballot counts it answers or refuses a lasting tie - so the recorded class of finding
+   scale - on every profile with positive ballot counts it answers or refuses a lasting tie (VotingSystemError), nothing else - so the recorded class of finding
    C11-mj-default-scale (a StatisticsError at one scale, an answer at the other) is empty; and on complete ballots it is the
    pinned evaluator, hence scale-free (C11_scale_mj_default_full) *)
 Definition C11_scale_mj_default_repaired_full_statement : Prop :=
@@ -889,11 +889,11 @@ Definition C11_scale_mj_default_repaired_full_statement : Prop :=
 Theorem C11_scale_mj_default_no_crash : forall (k : Z) rp plus (cf : Cardinal.score_cfg) (votes : Cardinal.sprofile) n, (0 < k)%Z -> (1 <= n)%nat ->
   Cardinal.rp_trunc rp = true -> Cardinal.rp_mj rp = true -> TruncRepair_proofs.profile_pos votes ->
   match Cardinal.majority_judgment_x rp plus cf (map (fun bn => (fst bn, (k * snd bn)%Z)) votes) n with
-  | inl _ => True | inr e => e = Cardinal.SE_vse \/ e = Cardinal.SE_fuel end /\
+  | inl _ => True | inr e => e = Cardinal.SE_vse end /\
   match Cardinal.majority_judgment_x rp plus cf votes n with
-  | inl _ => True | inr e => e = Cardinal.SE_vse \/ e = Cardinal.SE_fuel end.
+  | inl _ => True | inr e => e = Cardinal.SE_vse end.
 Proof.
-  intros k rp plus cf votes n Hk Hn Ht Hm Hv. split; apply MJ_repair_proofs.majority_judgment_x_no_crash; try assumption.
+  intros k rp plus cf votes n Hk Hn Ht Hm Hv. split; apply MJ_repair_proofs.majority_judgment_x_answers_or_refuses; try assumption.
   intros bn Hin. apply in_map_iff in Hin. destruct Hin as (bn0 & <- & Hin0). destruct (Hv bn0 Hin0) as (H1 & H2).
   cbn [fst snd]. split; [nia|exact H2].
 Qed.
